@@ -1,17 +1,21 @@
 package oidc
 
 import (
+	"context"
 	"io"
 	"net/http"
 	"strings"
 	"sync"
 
+	configv1 "github.com/istio-ecosystem/authservice/config/gen/go/v1"
+	oidcv1 "github.com/istio-ecosystem/authservice/config/gen/go/v1/oidc"
 	"github.com/istio-ecosystem/authservice/internal/vn"
 )
 
 func init() {
 	verifHarnesses["VerifC16_DiscoveryCache"] = VerifC16_DiscoveryCache
 	verifHarnesses["VerifC16_GeneratorKeepsNoUnsynchronisedState"] = VerifC16_GeneratorKeepsNoUnsynchronisedState
+	verifHarnesses["VerifC16_StaticKeyLookupKeepsNoUnsynchronisedState"] = VerifC16_StaticKeyLookupKeepsNoUnsynchronisedState
 }
 
 type kitDiscoveryIdP struct{ body string }
@@ -79,6 +83,41 @@ func VerifC16_GeneratorKeepsNoUnsynchronisedState() {
 				_ = g.GenerateNonce()
 				_ = g.GenerateState()
 				_ = g.GenerateCodeVerifier()
+			}
+		}()
+	}
+	wg.Wait()
+}
+
+// VerifC16_StaticKeyLookupKeepsNoUnsynchronisedState (shared-write audit): the one key-set
+// provider of the process serves the token validation of every check of every filter. Looking up
+// a statically configured key set (any of two documents or an unparsable one, twice in a row, for
+// one or two filters) must not write, without a lock, to anything that outlives the call -- a
+// parse cache, a "last result", a counter. Natively: many goroutines look keys up on one provider
+// under the race detector.
+func VerifC16_StaticKeyLookupKeepsNoUnsynchronisedState() {
+	docs := []string{vn.JWKSDoc("good"), vn.JWKSDoc("other"), "not a jwks"}
+	p := NewJWKSProvider(&configv1.Config{}, nil)
+	ctx := context.Background()
+	if vn.Symbolic() {
+		a := &oidcv1.OIDCConfig{ClientId: "a", JwksConfig: &oidcv1.OIDCConfig_Jwks{Jwks: docs[vn.Choice("a-jwks", 3)]}}
+		b := &oidcv1.OIDCConfig{ClientId: "b", JwksConfig: &oidcv1.OIDCConfig_Jwks{Jwks: docs[vn.Choice("b-jwks", 3)]}}
+		vn.WatchSharedWrites()
+		_, _ = p.Get(ctx, a)
+		_, _ = p.Get(ctx, b)
+		_, _ = p.Get(ctx, a)
+		vn.Unwatch()
+		vn.Cover("C16/static-key-lookup-audited", true)
+		return
+	}
+	var wg sync.WaitGroup
+	for i := 0; i < 8; i++ {
+		wg.Add(1)
+		f := &oidcv1.OIDCConfig{ClientId: "a", JwksConfig: &oidcv1.OIDCConfig_Jwks{Jwks: docs[i%3]}}
+		go func() {
+			defer wg.Done()
+			for j := 0; j < 50; j++ {
+				_, _ = p.Get(ctx, f)
 			}
 		}()
 	}
